@@ -90,23 +90,12 @@ theorem validate_raw_id : ∀ (f : FieldDecl) (v w : PyVal),
     simp only [rawOkV] at hr
     simp only [validate] at hv
     exact validate_raw_any fs v w hr hv
-  | .oneOf fs, v, w, hr, hv => by
-    simp only [rawOkV] at hr
-    simp only [validate] at hv
-    split at hv
-    · exact validate_raw_any fs v w hr hv
-    · cases hv
+  | .oneOf fs, v, w, _, hv => by simp only [validate] at hv; exact ite_ok_id hv
   | .notF fs, v, w, _, hv => by simp only [validate] at hv; exact ite_ok_id hv
-  | .allOf fs, v, w, hr, hv => by
-    simp only [rawOkV] at hr
+  | .allOf fs, v, w, _, hv => by
     simp only [validate] at hv
     rcases bindE_eq_ok hv with ⟨_, _, h2⟩
-    cases fs with
-    | nil => simp only [validateFirst] at h2; cases h2; rfl
-    | cons f rest =>
-      simp only [rawOkAll, Bool.and_eq_true] at hr
-      simp only [validateFirst] at h2
-      exact validate_raw_id f v w hr.1 h2
+    cases h2; rfl
   | .anything, v, w, _, hv => by simp only [validate] at hv; cases hv; rfl
   | .seqPos _ _ _ _, _, _, hr, _ => by simp [rawOkV] at hr
   | .setAny _ _, _, _, hr, _ => by simp [rawOkV] at hr
